@@ -2,6 +2,7 @@ package crypto
 
 import (
 	"bytes"
+	"encoding/json"
 	"fmt"
 	"testing"
 
@@ -208,6 +209,71 @@ func TestVerifC05(t *testing.T) {
 			rec.Violation("nonce-unbound", "Open succeeded with another nonce", desc)
 		}
 		rec.Case(fmt.Sprint("nonce2", c.Len, ci), true)
+
+		// key object history must not matter: a key whose bytes were changed after it was used
+		// (field assignment on a copy, in-place change, JSON reload into the same object) must
+		// behave exactly like a freshly built key with the same bytes.
+		if ci%5 == 0 {
+			k3 := verifKey(rng)
+			fresh := func(src *Key) *Key { // new object, never used before, same bytes
+				n := &Key{}
+				copy(n.EncryptionKey[:], src.EncryptionKey[:])
+				copy(n.MACKey.K[:], src.MACKey.K[:])
+				copy(n.MACKey.R[:], src.MACKey.R[:])
+				return n
+			}
+			type variant struct {
+				name string
+				mk   func() *Key
+			}
+			variants := []variant{
+				{"copy-then-set-K", func() *Key { c := *k; c.MACKey.K = k3.MACKey.K; return &c }},
+				{"copy-then-set-R", func() *Key { c := *k; c.MACKey.R = k3.MACKey.R; return &c }},
+				{"copy-then-set-enc", func() *Key { c := *k; c.EncryptionKey = k3.EncryptionKey; return &c }},
+				{"inplace-bytes", func() *Key {
+					c := *k
+					_, _ = verifOpen(&c, buf) // use the copy first
+					copy(c.MACKey.K[:], k3.MACKey.K[:])
+					copy(c.MACKey.R[:], k3.MACKey.R[:])
+					copy(c.EncryptionKey[:], k3.EncryptionKey[:])
+					return &c
+				}},
+				{"json-reload", func() *Key {
+					c := *k
+					_, _ = verifOpen(&c, buf)
+					js, err := json.Marshal(k3)
+					if err != nil {
+						return nil
+					}
+					if err := json.Unmarshal(js, &c); err != nil {
+						return nil
+					}
+					return &c
+				}},
+			}
+			for _, v := range variants {
+				mk := v.mk()
+				if mk == nil {
+					rec.Violation("key-json", "key does not survive a JSON round trip", v.name)
+					continue
+				}
+				ref := fresh(mk)
+				a := verifSeal(mk, nonce, pt)
+				b := verifSeal(ref, nonce, pt)
+				if !bytes.Equal(a, b) {
+					rec.Violation("key-history-seal", fmt.Sprintf("%s: a modified key object seals differently from a fresh key with identical bytes", v.name), desc)
+				}
+				_, errOld := verifOpen(mk, buf) // buf was sealed under the ORIGINAL key
+				_, errRef := verifOpen(ref, buf)
+				if (errOld == nil) != (errRef == nil) {
+					rec.Violation("key-history-open", fmt.Sprintf("%s: modified key object accepts=%v, fresh key with identical bytes accepts=%v (ciphertext of the original key)", v.name, errOld == nil, errRef == nil), desc)
+				}
+				if out, err := verifOpen(ref, a); err != nil || !bytes.Equal(out, pt) {
+					rec.Violation("key-history-roundtrip", fmt.Sprintf("%s: ciphertext sealed by a modified key object is rejected by a fresh key with identical bytes: %v", v.name, err), desc)
+				}
+				rec.Case(fmt.Sprint("keyhistory/", v.name, "/", c.Len), true)
+			}
+		}
 		if rec.WantSample() {
 			rec.Sample(map[string]any{"plaintext_len": c.Len, "mode": c.Mode, "bit_positions_flipped": nbits, "truncations": len(buf), "stored_prefix": verifkit.Hex(buf)})
 		}
